@@ -63,6 +63,9 @@ func NewStyp(majorBrand string, minorVersion uint32, compatibleBrands []string) 
 
 // DecodeStyp - box-specific decode
 func DecodeStyp(hdr BoxHeader, startPos uint64, r io.Reader) (Box, error) {
+	if hdr.payloadLen() < 8 {
+		return nil, fmt.Errorf("styp box payload %d bytes, need at least 8", hdr.payloadLen())
+	}
 	data, err := readBoxBody(r, hdr)
 	if err != nil {
 		return nil, err
